@@ -50,6 +50,7 @@ type Prog struct {
 	spliceHosts   []*Func
 	spliceBind    map[*Func]map[string]*Term
 	forceSplice   map[*Func]map[*Func]bool // host -> callees a rule asked to walk in place
+	elemMemo      map[*Func]*Term
 	predDone      map[*Func]bool
 	anchors       map[string]types.Object
 	kt            *KeyTable
@@ -160,6 +161,7 @@ func loadProg(dir string, tests bool, goarch string) *Prog {
 	}
 	p.indexFuncs()
 	dynResolver = p.resolveDynCalls
+	elemResolver = p.resolveElem
 	errCtorHook = p.moduleErrCtor
 	return p
 }
